@@ -108,6 +108,17 @@ fn fast_sweep(ctx: &Ctx, rep: &mut Report, r: &mut Rng, b: &Branch, f: &ExpF, va
                 || mon::replay_message(&buf, b.name),
             );
         }
+        if n % 50_000 == 7 {
+            rep.sample(6, || {
+                let mut o = J::obj();
+                o.set("branch", J::s(b.name));
+                o.set("field", J::s(f.key));
+                o.set("raw", J::i(raw));
+                o.set("expected_degrees", J::Num(want));
+                o.set("observed", J::s(&format!("{:?}", got)));
+                o
+            });
+        }
         if n % 4096 == 1 || (s - sent).abs() < 4 || s.abs() < 4 {
             rep.class(format!("t{}|{}|{}", b.t, f.key, stratum(width, raw)));
         }
